@@ -15,25 +15,39 @@ Log(op, a) == h' = Append(h, [op |-> op, a |-> a, ntxgs |-> Len(txgs'), rem |-> 
 Queue(d, n) == /\ nextg <= MaxGrams
                /\ txgs' = Append(txgs, [g |-> nextg, dst |-> d, from |-> 0, len |-> n]) /\ nextg' = nextg + 1
                /\ UNCHANGED <<txbs, wire, dropped>> /\ Log("queue", <<d, n>>)
-Pending == txbs # None \/ txgs # <<>>
-Cur == IF txbs # None THEN txbs ELSE Head(txgs)
-\* out = <<"acc", k>> (k capped by what is left) | <<"unreachable">>
-Service(out) ==
-  /\ Pending
-  /\ LET c == Cur
-         rest == IF txbs # None THEN txgs ELSE Tail(txgs)
-         left == c.len - c.from IN
-     IF out[1] = "unreachable"
-     THEN /\ txbs' = None /\ txgs' = rest /\ dropped' = dropped \cup {c.g} /\ UNCHANGED wire
-     ELSE LET k == IF out[2] < left THEN out[2] ELSE left IN
-          /\ wire' = [wire EXCEPT ![c.dst] = @ \o [i \in 1..k |-> <<c.g, c.from + i>>]]
-          /\ txbs' = IF k = left THEN None ELSE [c EXCEPT !.from = @ + k]
-          /\ txgs' = rest /\ UNCHANGED dropped
-  /\ UNCHANGED nextg /\ Log("service", out)
+\* the transmit state as one record, so that one call that makes several sends (the greedy service) composes single sends
+Cur == [txgs |-> txgs, txbs |-> txbs, wire |-> wire, dropped |-> dropped]
+PendingIn(st) == st.txbs # None \/ st.txgs # <<>>
+Pending == PendingIn(Cur)
+\* one send(): out = <<"acc", k>> (k capped by what is left) | <<"unreachable">>; more: the gram went out completely or was
+\* dropped, a greedy caller may go on
+Apply(st, out) ==
+  LET c == IF st.txbs # None THEN st.txbs ELSE Head(st.txgs)
+      rest == IF st.txbs # None THEN st.txgs ELSE Tail(st.txgs)
+      left == c.len - c.from IN
+  IF out[1] = "unreachable"
+  THEN [txgs |-> rest, txbs |-> None, wire |-> st.wire, dropped |-> st.dropped \cup {c.g}, more |-> TRUE]
+  ELSE LET k == IF out[2] < left THEN out[2] ELSE left IN
+       [txgs |-> rest, txbs |-> IF k = left THEN None ELSE [c EXCEPT !.from = @ + k],
+        wire |-> [st.wire EXCEPT ![c.dst] = @ \o [i \in 1..k |-> <<c.g, c.from + i>>]], dropped |-> st.dropped, more |-> (k = left)]
+Become(r) == txgs' = r.txgs /\ txbs' = r.txbs /\ wire' = r.wire /\ dropped' = r.dropped
+\* serviceTxGramsOnce(): one send
+Service(out) == /\ Pending /\ Become(Apply(Cur, out)) /\ UNCHANGED nextg /\ Log("service", out)
+\* serviceTxGrams(): sends while there is something to send and the last send went out completely; the transport answers
+\* the first sends as planned and accepts everything after that
+RECURSIVE Run(_, _)
+Run(st, plan) == IF ~PendingIn(st) THEN st
+                 ELSE LET r == Apply(st, IF plan = <<>> THEN <<"acc", 99>> ELSE Head(plan)) IN
+                      IF r.more THEN Run(r, IF plan = <<>> THEN plan ELSE Tail(plan)) ELSE r
+Greedy(plan) == /\ Pending /\ Become(Run(Cur, plan)) /\ UNCHANGED nextg /\ Log("greedy", plan)
+\* the transport is closed and opened again between two calls: nothing queued or in flight is forgotten
+Bounce == /\ UNCHANGED <<txgs, txbs, wire, dropped, nextg>> /\ Log("bounce", <<>>)
 Outs == {<<"acc", k>> : k \in 0..3} \cup {<<"acc", 99>>, <<"unreachable">>}
 Next == /\ Len(h) < MaxOps
         /\ \/ \E d \in Dsts, n \in Lens : Queue(d, n)
            \/ \E out \in Outs : Service(out)
+           \/ \E o1 \in Outs : Greedy(<<o1>>) \/ \E o2 \in Outs : Greedy(<<o1, o2>>)
+           \/ (h # <<>> /\ h[Len(h)].op # "bounce" /\ Bounce)
 Spec == Init /\ [][Next]_vars
 -----------------------------------------------------------------------------
 MCView == <<txgs, txbs, wire, dropped, nextg, Len(h)>>
